@@ -183,6 +183,17 @@ class Normaliser(ast.NodeTransformer):
         self.ft_mods, self.ft_partial = set(), set()     # spellings of functools / functools.partial
         self.partials = {}                               # module level name -> the partial(...) call it is bound to (bound once)
         self.const_tables = {}                           # module level name -> literal tuple / list of constants it is bound to (once)
+        self.sentinels = set()                           # module level names bound once to object(): `_NOTHING = object()`
+        if tree is not None:
+            bound = {}
+            for st0 in getattr(tree, "body", []):
+                for y in ast.walk(st0) if not isinstance(st0, (ast.FunctionDef, ast.ClassDef)) else ():
+                    if isinstance(y, ast.Name) and isinstance(y.ctx, (ast.Store, ast.Del)):
+                        bound[y.id] = bound.get(y.id, 0) + 1
+            for st0 in getattr(tree, "body", []):
+                if isinstance(st0, ast.Assign) and len(st0.targets) == 1 and isinstance(st0.targets[0], ast.Name) and bound.get(st0.targets[0].id) == 1 \
+                        and isinstance(st0.value, ast.Call) and isinstance(st0.value.func, ast.Name) and st0.value.func.id == "object" and not st0.value.args:
+                    self.sentinels.add(st0.targets[0].id)
         for n in ast.walk(tree) if tree is not None else ():
             if isinstance(n, ast.Import):
                 for a in n.names:
@@ -629,7 +640,8 @@ class Normaliser(ast.NodeTransformer):
     def _first_match(self, v):
         """(loop variable, iterable, condition or None, element, default) when v is next((e for x in L if c...), <constant>)"""
         if not (isinstance(v, ast.Call) and isinstance(v.func, ast.Name) and v.func.id == "next" and len(v.args) == 2 and not v.keywords
-                and isinstance(v.args[1], ast.Constant) and isinstance(v.args[0], ast.GeneratorExp) and len(v.args[0].generators) == 1):
+                and (isinstance(v.args[1], ast.Constant) or (isinstance(v.args[1], ast.Name) and v.args[1].id in getattr(self, "sentinels", ())))
+                and isinstance(v.args[0], ast.GeneratorExp) and len(v.args[0].generators) == 1):
             return None
         gen = v.args[0].generators[0]
         stores = getattr(self, "_fn_stores", None)
